@@ -10,7 +10,7 @@ from ..core import AnalysisError, Ctx, norm
 from ..grammar import Star, seq_str
 
 META = {
-    "explanation": "An abstract transformer: every callback of MapfileTransformer is evaluated by PAI on every child-class sequence the *shaped grammar* can deliver (tree shapes inferred from the compiled grammar: filtered tokens, inlined rules, ?-rules), bottom-up, with tokens carrying abstract text per terminal kind. Decided: every node label has a callback - a def, a class-body alias of a module function, or a closure made by a module-level factory called with literals, which is closure-converted into a method - or is never materialised (T1); no callback fails on a shape the grammar lists for vocabulary the schemas know (T2); the documented conversions - int/float/bool typing, hex colours lower-cased and unquoted, quoted strings losing exactly their outer quotes, keyword names and METADATA/VALIDATION/VALUES/CONNECTIONOPTIONS/CONFIG keys lower-cased (T3); composite() storage discipline evaluated on a synthetic LAYER body: __type__, source order, plural lists vs singleton dicts, repeated keys as lists, last value wins, POINTS nesting, PROJECTION list (T4); every value token of a multi-valued attribute reaches the stored value in order (T5).",
+    "explanation": "An abstract transformer: every callback of MapfileTransformer is evaluated by PAI on every child-class sequence the *shaped grammar* can deliver (tree shapes inferred from the compiled grammar: filtered tokens, inlined rules, ?-rules), bottom-up, with tokens carrying abstract text per terminal kind. Decided: every node label has a callback - a def, a class-body alias of a module function, or a closure made by a module-level factory called with literals, which is closure-converted into a method - or is never materialised (T1); no callback fails on a shape the grammar lists for vocabulary the schemas know (T2); the documented conversions - int/float/bool typing, hex colours lower-cased and unquoted, quoted strings losing exactly their outer quotes, keyword names and METADATA/VALIDATION/VALUES/CONNECTIONOPTIONS/CONFIG keys lower-cased (T3); composite() storage discipline evaluated on a synthetic LAYER body: __type__, source order, plural lists vs singleton dicts, repeated keys as lists, last value wins, POINTS nesting, PROJECTION list (T4); every value token of a multi-valued attribute reaches the stored value in order (T5); every spelling of a number (signs, leading / trailing point, exponent forms) is one number token of the right kind in a value position and inside a number list, by lexer simulation on the compiled terminals in the LALR state's accepted set (T6).",
     "level_text": "For the finite set of (callback, child-class sequence) pairs the grammar admits, the abstract result is compared with the contract; each verdict holds for all token texts of the class. This covers every keyword/shape pair, not the quarter the snippets mention.",
     "level_note": "Trusted: lark builds the tree the shaped grammar predicts and calls callbacks bottom-up with the children list. Token *text* classes are derived from the terminal definitions by hand (xform.token_value). Lexer-level mis-tokenisation of particular texts is not examined.",
     "technique": "abstract interpretation of transformer callbacks over grammar-derived tree shapes (typed child sequences)",
@@ -23,7 +23,7 @@ def run(ctx: Ctx) -> None:
     e = models.env(ctx)
     repo, G, S = ctx.repo, e.G, e.S
     ctx.trusted += ["lark tree construction follows the grammar's tree-shaping rules", "Transformer calls callbacks bottom-up"]
-    ctx.not_decided += ["lexer-level tokenisation of particular texts", "attachment to a different object by lark itself"]
+    ctx.not_decided += ["lexer-level tokenisation of texts other than number spellings (T6)", "attachment to a different object by lark itself"]
     shapes = G.node_shapes()
     labels = sorted(G.reachable_labels())
     tmeths = set(repo.module("transformer").methods.get("MapfileTransformer", {}))
@@ -222,6 +222,28 @@ def run(ctx: Ctx) -> None:
         got = o.value.get("somekey") if o.kind == "return" else None
         good = isinstance(got, list) and len(got) == len(want) and all(a is b or a == b for a, b in zip(got, want))
         ctx.check(good, "T5", f"attr with {lab}", repo.loc("transformer", repo.func("transformer.MapfileTransformer.attr")), f"{n} values in order", f"values {want} stored as {got}")
+
+    # ---- T6 --------------------------------------------------------------------------------------
+    ctx.rule("T6", "every spelling of a number a Mapfile may use (plain, signed, leading / trailing decimal point, exponent with or without a decimal point, either case of e, either exponent sign) is one number token of the right kind in a value position - the typed conversion of T3 is only reached through these tokens; in a number list every item is its own number token", 20)
+    st_val, _ = G.state_after(["MAP", "UNQUOTED_STRING"])
+    if st_val is None:
+        raise AnalysisError("cannot reach a value position in the LALR automaton")
+    acc = G.accepts[st_val]
+    spellings = {
+        "SIGNED_INT": ["0", "42", "-7", "+3", "1000000"],
+        "SIGNED_FLOAT": ["0.5", "-0.25", "5.", ".5", "-.5", "+1.5", "2.5e3", "1.5E+3", "2.5e-05", "1e6", "5E4", "1E6", "1e-05", "-1e3", "3e2", "1e+16"],
+    }
+    for kind, texts in spellings.items():
+        for txt in texts:
+            got = G.lex_kind(txt, acc)
+            ctx.check(got == kind, "T6", f"number spelling {txt}", "mappyfile/mapfile.lark", kind, f"the value text {txt} is read as {got or 'several tokens / no token'} instead of one {kind}: loads() returns a string (or splits the value) where the Mapfile has a number")
+    # inside a list of numbers (EXTENT -1.5 2 3e2 4.25): after a first number the same spellings are still numbers
+    st_lst, _ = G.state_after(["MAP", "UNQUOTED_STRING", "SIGNED_FLOAT"])
+    if st_lst is not None:
+        acc2 = G.accepts[st_lst]
+        for kind, txt in (("SIGNED_INT", "2"), ("SIGNED_FLOAT", "3e2"), ("SIGNED_FLOAT", "4.25"), ("SIGNED_FLOAT", "1e-05")):
+            got = G.lex_kind(txt, acc2)
+            ctx.check(got == kind, "T6", f"number spelling {txt} after another number", "mappyfile/mapfile.lark", kind, f"inside a number list the item {txt} is read as {got or 'several tokens / no token'} instead of one {kind}: the list is cut short and the rest becomes another keyword")
 
 
 def _composite_contract(ctx: Ctx, e, X) -> None:
